@@ -6,7 +6,7 @@
    repairs), callback behaviour cb and n inputs, by ANY interleaving of the
    dispatcher, the workers and a context cancellation.  [pc s = DDone] = peach
    has returned.  [cancelled s = false] = no cancellation happened. *)
-From verif Require Import lib.Base model.C20_Peach model.C20 proofs.C20_proofs.
+From verif Require Import lib.Base model.C20_Peach model.C20 proofs.C20_proofs proofs.C20_rp_proofs proofs.C20_oracle_proofs proofs.C20_p1_proofs.
 From Coq Require Import Permutation.
 Open Scope nat_scope.
 
@@ -67,3 +67,55 @@ Print Assumptions C20_no_panic.
 Theorem C20_peach1_extra_callback_refuted : ~ peach1_equiv_each_stmt (faithful (Some 1)).
 Proof. exact peach1_extra_callback_refuted. Qed.
 Print Assumptions C20_peach1_extra_callback_refuted.
+
+(* peach1_equiv_each for the REPAIRED dispatcher (fix_recheck = true):
+     forall f, peach1_equiv_each_stmt (mkCfg (Some 1) true f)
+   (same calls, same output sequence, same errors as each) is the stated goal.
+   Proved in this round is the part the defect is about -- _partial, see
+   checks/C20.md: with one worker and broken re-tested after Acquire, in every
+   reachable state of every schedule, no callback has been entered for an input
+   that comes after one whose callback broke or failed and returned (each does
+   the same: it stops at the first break / failure). *)
+Theorem C20_peach1_no_callback_after_break_repaired_partial : forall c cb n,
+  bound c = Some 1 -> fix_recheck c = true ->
+  forall s, reach c cb n s -> cancelled s = false ->
+  forall i j, i < j -> posted (st s i) = true -> is_breaker (cb_kind (cb i)) = true ->
+  calls s j = 0.
+Proof. exact peach1_no_callback_after_break_repaired. Qed.
+Print Assumptions C20_peach1_no_callback_after_break_repaired_partial.
+
+(* run-parallel: when it has returned, every function was entered exactly once,
+   has finished, and its exception is stored in its slot (all reported by
+   MakePipelineError); for every number of functions, behaviour and schedule *)
+Theorem C20_run_parallel_each_once : forall cb n s,
+  rreach cb n s -> r_pc s = RDone ->
+  forall i, i < n ->
+    r_calls s i = 1 /\ r_st s i = RFinished /\ r_exc s i = exc_of (cb_kind (cb i)).
+Proof. exact run_parallel_each_once. Qed.
+Print Assumptions C20_run_parallel_each_once.
+
+Theorem C20_run_parallel_no_panic : forall cb n s, rreach cb n s -> r_panicked s = false.
+Proof. exact run_parallel_no_panic. Qed.
+Print Assumptions C20_run_parallel_no_panic.
+
+(* the oracles evaluated on the implementation's observations are sound *)
+Theorem C20_oracle_sound_peach : forall b cbs o eo,
+  check_peach b cbs o eo = true -> Spec_peach b cbs o eo.
+Proof. exact check_peach_sound. Qed.
+Print Assumptions C20_oracle_sound_peach.
+
+Theorem C20_oracle_sound_runpar : forall fs o,
+  check_runpar fs o = true -> Spec_runpar fs o.
+Proof. exact check_runpar_sound. Qed.
+Print Assumptions C20_oracle_sound_runpar.
+
+(* non-vacuity: the witness schedule really ends in DDone with callback 1 entered *)
+Example C20_example_witness_runs :
+  match exec (faithful (Some 1)) w_cb 3 init w_sched with
+  | Some s => calls s 0 = 1 /\ calls s 1 = 1 /\ calls s 2 = 0 /\ out s = [1%N; 101%N]
+  | None => False
+  end.
+Proof. vm_compute. repeat split; reflexivity. Qed.
+
+Example C20_example_each : e_out (each_pre w_cb 3) = [1%N] /\ e_m (each_pre w_cb 3) = 1.
+Proof. vm_compute. split; reflexivity. Qed.
